@@ -86,7 +86,23 @@ func c13CountryGuards(c *core.Ctx) {
 		}
 		info := pk.TypesInfo
 		isIdentityCountry := func(e ast.Expr) bool {
-			se, ok := ast.Unparen(e).(*ast.SelectorExpr)
+			e = ast.Unparen(e)
+			for i := 0; i < 3; i++ {
+				call, ok := e.(*ast.CallExpr)
+				if !ok {
+					break
+				}
+				if tv, isT := info.Types[call.Fun]; isT && tv.IsType() && len(call.Args) == 1 {
+					e = ast.Unparen(call.Args[0])
+					continue
+				}
+				cs, isSel := ast.Unparen(call.Fun).(*ast.SelectorExpr)
+				if !isSel || len(call.Args) != 0 || (cs.Sel.Name != "Code" && cs.Sel.Name != "String") {
+					break
+				}
+				e = ast.Unparen(cs.X)
+			}
+			se, ok := e.(*ast.SelectorExpr)
 			if !ok || se.Sel.Name != "Country" {
 				return false
 			}
